@@ -155,7 +155,64 @@ func C06_Inject() {
 	}
 }
 
-// C06_Pinning: a version pinned by an open export cannot be deleted until the export is closed.
+// C06_Pinning: a version pinned by open exports cannot be deleted until every export on it is closed
+// (one or two exports on the pinned version, optionally one more on a later version; closed in either order).
 func C06_Pinning() {
-	C04_PrunePinned()
+	cfg, maxV, _ := c04cfg("C06_Pinning")
+	cfg.thresh = []int{0}
+	h := vStartHist(cfg)
+	h.vBuildVersions(maxV, 1)
+	if h.latest < 2 {
+		vStop()
+	}
+	pin := h.first + int64(vChoice("pin", int(h.latest-h.first)))
+	nExp := 1 + vChoice("exports", 2)
+	var exps []*Exporter
+	for i := 0; i < nExp; i++ {
+		it, err := h.tree.GetImmutable(pin)
+		vAssert(err == nil, "pin:getimmutable")
+		ex, err := it.Export()
+		vAssert(err == nil, "pin:export")
+		exps = append(exps, ex)
+	}
+	// an unrelated export on the latest version must not matter
+	var other *Exporter
+	if vChoice("other", 2) == 1 {
+		it, err := h.tree.GetImmutable(h.latest)
+		vAssert(err == nil, "pin:getimmutable-latest")
+		other, err = it.Export()
+		vAssert(err == nil, "pin:export-latest")
+	}
+	n := pin + int64(vChoice("n", int(h.latest-pin)))
+	before := len(h.db.keys)
+	err := h.tree.DeleteVersionsTo(n)
+	vAssert(err != nil, "pin:delete-of-pinned-version-rejected")
+	vAssert(len(h.db.keys) == before, "pin:rejected-delete-has-no-effect")
+	// close the exports one by one: the version stays pinned until the last one is closed
+	first := 0
+	if nExp == 2 {
+		first = vChoice("closefirst", 2)
+	}
+	for k := 0; k < nExp; k++ {
+		exps[(first+k)%nExp].Close()
+		if k < nExp-1 {
+			err := h.tree.DeleteVersionsTo(n)
+			vAssert(err != nil, "pin:delete-while-another-export-is-still-open")
+			vAssert(len(h.db.keys) == before, "pin:rejected-delete-has-no-effect-2")
+			vCover("two-exports")
+		}
+	}
+	err = h.tree.DeleteVersionsTo(n)
+	vAssert(err == nil, "pin:delete-after-close")
+	for v := h.first; v <= n; v++ {
+		delete(h.vers, v)
+		delete(h.refRoots, v)
+	}
+	h.first = n + 1
+	h.checkVersions("pin:after-delete")
+	h.audit()
+	if other != nil {
+		other.Close()
+	}
+	vCover("pinned-delete-rejected")
 }
